@@ -80,7 +80,59 @@ where
         }
     }
 
-    ranges
+    include_adjacent_empty_pages(ranges, page_locations)
+}
+
+/// Adds the pages without rows that sit next to a selected page.
+///
+/// No selector can select a page that holds no rows, but a reader that runs off
+/// the end of the preceding page (or starts reading right after skipping to the
+/// following one) steps through it, so it has to be fetched along with its
+/// selected neighbour. A page holds no rows when the next page starts at the
+/// same row.
+fn include_adjacent_empty_pages(
+    ranges: Vec<Range<u64>>,
+    page_locations: &[PageLocation],
+) -> Vec<Range<u64>> {
+    let is_empty = |idx: usize| {
+        page_locations
+            .get(idx + 1)
+            .is_some_and(|next| next.first_row_index == page_locations[idx].first_row_index)
+    };
+    if ranges.is_empty() || !(0..page_locations.len()).any(is_empty) {
+        return ranges;
+    }
+
+    // `ranges` holds whole pages in page order
+    let mut selected = ranges.iter().peekable();
+    let mut included: Vec<bool> = page_locations
+        .iter()
+        .map(|page| selected.next_if(|r| r.start == page.offset as u64).is_some())
+        .collect();
+    if selected.peek().is_some() {
+        // not a subsequence of the pages: leave the result alone
+        return ranges;
+    }
+    for idx in 1..included.len() {
+        if is_empty(idx) && included[idx - 1] {
+            included[idx] = true;
+        }
+    }
+    for idx in (0..included.len().saturating_sub(1)).rev() {
+        if is_empty(idx) && included[idx + 1] {
+            included[idx] = true;
+        }
+    }
+
+    page_locations
+        .iter()
+        .zip(included)
+        .filter(|(_, included)| *included)
+        .map(|(page, _)| {
+            let start = page.offset as u64;
+            start..start + page.compressed_page_size as u64
+        })
+        .collect()
 }
 
 /// Grows each selected run to the batch boundaries containing it, merging the
